@@ -208,6 +208,19 @@ func (w *Worker) binop(fr *frame, op token.Token, tx, ty types.Type, x, y Value)
 			default:
 				return T.Ite(big, T.Const(xv.Sort, 0), T.Bin(OpLShr, xv, c2))
 			}
+		case token.LSS, token.LEQ, token.GTR, token.GEQ:
+			if signed && w.scaled != nil {
+				names := map[token.Token]string{token.LSS: "lt", token.LEQ: "le", token.GTR: "gt", token.GEQ: "ge"}
+				flip := map[string]string{"lt": "gt", "le": "ge", "gt": "lt", "ge": "le"}
+				if si, ok := w.scaled[xv]; ok && yv.IsConst() {
+					return w.cmpScaled(si, names[op], int64(yv.Val))
+				}
+				if si, ok := w.scaled[yv]; ok && xv.IsConst() {
+					return w.cmpScaled(si, flip[names[op]], int64(xv.Val))
+				}
+			}
+		}
+		switch op {
 		case token.LSS:
 			if signed {
 				return T.Bin(OpSLt, xv, yv)
